@@ -6,6 +6,7 @@
 //!   replay search --prop Cxx [--depth d] [--seed s] [--random n] [--len l] [--ties] [--out file]
 //!                                                       exit 0 = nothing found, 1 = failing history written to --out
 //!   replay truncate [--seed s]                          bounded stand-in of C07: every byte prefix of written snapshots is rejected
+mod agentrun;
 mod envrun;
 mod model;
 use bourse_book::types::{Event, Order, Side, Status, Trade};
@@ -795,6 +796,12 @@ fn main() {
             let text = std::fs::read_to_string(&args[2]).expect("history file");
             let v: serde_json::Value = serde_json::from_str(&text).unwrap();
             let hv0 = if v.get("witness").map_or(false, |w| !w.is_null()) { v["witness"]["history"].clone() } else if v.get("history").is_some() { v["history"].clone() } else { v.clone() };
+            if hv0.get("case").is_some() {
+                let c: agentrun::AgentCase = serde_json::from_value(hv0).expect("agent case format");
+                let fails = agentrun::run_case(&c);
+                println!("{}", serde_json::to_string_pretty(&serde_json::json!({"case": c, "failures": fails})).unwrap());
+                std::process::exit(if fails.is_empty() { 0 } else { 1 });
+            }
             if hv0.get("env").is_some() {
                 let h: envrun::EnvHistory = serde_json::from_value(hv0).expect("env history format");
                 let fails = envrun::run_env_history(&h);
@@ -844,6 +851,21 @@ fn main() {
                 None => {
                     println!("{{\"found\": false}}");
                 }
+            }
+        }
+        "agents" => {
+            let prop = arg(&args, "--prop").unwrap_or("any".into());
+            let seed: u64 = arg(&args, "--seed").map_or(0, |s| s.parse().unwrap());
+            match agentrun::search_agents(&prop, seed) {
+                Some((c, fails)) => {
+                    let doc = serde_json::json!({"history": c, "failures": fails});
+                    if let Some(out) = arg(&args, "--out") {
+                        std::fs::write(out, serde_json::to_string_pretty(&doc).unwrap()).unwrap();
+                    }
+                    println!("{}", serde_json::to_string_pretty(&doc).unwrap());
+                    std::process::exit(1);
+                }
+                None => println!("{{\"found\": false}}"),
             }
         }
         "truncate" => {
